@@ -44,4 +44,17 @@ PROPS["C10"] = {
     "assumptions": ["as C09"],
 }
 
+PROPS["C11"] = {
+    "suites": ["update_cli"],
+    "level_text": "Kernel-checked theorems for all file contents, ids, offsets and regexes about a Gallina transcription of updateRegex (locate loop incl. uint8 counter, RuleRxRegex delimitation, split/join): the split/join round trip preserves every byte, exactly one line is replaced and it is group1+new+group3 of its own match, all other lines are identical; the parts of the statement the code violates (offset beyond the chain, text after the continuation, id text elsewhere) are refuted by model witnesses replayed on the binary (known findings). Tied by pins on RuleRxRegex/SecRuleRegex and the function literals and by CLI runs of update on generated CRS rules files compared byte for byte with the model.",
+    "level_note": "Trusted: Coq kernel, translator, extraction, harness. Modelled: updateRegex; the generated regex is taken from the real generate; filepath.Glob file choice and os.WriteFile are exercised through the CLI, not modelled here (see C15). 'the located line is the addressed rule' is decided per generated file by the structural oracle (the generator knows the rule structure), not by a theorem.",
+    "assumptions": ["rule ids are six ASCII digits (regexp.MustCompile of id:NNNNNN is a literal search)"],
+}
+PROPS["C12"] = {
+    "suites": ["update_cli"],
+    "level_text": "Kernel-checked theorems: compare's verdict is byte equality; update and compare use the same location and operand delimitation for all inputs; read-after-update for every regex is refuted by a model witness (regex containing the operator marker) replayed on the binary (known finding). Histories update->compare, update->update, flip-one-byte->compare run on the binary for every generated tree; the model's read_current is compared with compare's verdict.",
+    "level_note": "Trusted as C11. The diff layout printed by compare and its exit status mapping are observed on the binary, not modelled. read-after-update for marker-free regexes is decided per generated case, not yet by a theorem.",
+    "assumptions": ["as C11"],
+}
+
 NOT_APPLICABLE = {}
